@@ -28,7 +28,7 @@ RULE = (
 )
 ASSUMPTIONS = ["bounds below the number of CVRs are outside the property's quantifier", "real identifiers never start with the phantom prefix"]
 REQUIRE_VAC = ["cases_needing_phantoms", "cases_no_phantom_needed", "strict_decrease_pairs", "phantom_cvr_scored", "phantoms_sampled", "shared_phantom_two_contests"]
-PLAN = {"quick": 3, "thorough": 4}
+PLAN = {"quick": 3, "thorough": 5}
 IDS = ["c1", "c2"]
 
 
